@@ -112,6 +112,25 @@ class Ctx:
         return F
 
 
+def run_relabelled(ctx, prog, fn, old_id, new_id):
+    """Run a rule of another property and re-label its obligations/findings under the current property."""
+    n_ob = len(ctx.obligations)
+    before = set(ctx.findings)
+    fn(ctx, prog)
+    ctx.obligations[n_ob:] = [(new_id if o[0] == old_id else o[0],) + tuple(o[1:]) for o in ctx.obligations[n_ob:]]
+    for k in list(ctx.findings):
+        if k in before:
+            continue
+        f = ctx.findings.pop(k)
+        if f.rule == old_id:
+            f.rule = new_id
+        ctx.findings[f.key()] = f
+    if old_id in ctx.rule_texts:
+        ctx.rule_texts[new_id] = ctx.rule_texts.pop(old_id)
+    if old_id in ctx.rule_sites:
+        ctx.rule_sites[new_id] = ctx.rule_sites.pop(old_id)
+
+
 def load_known():
     if not os.path.exists(KNOWN):
         return []
